@@ -212,11 +212,58 @@ pub mod c18 {
                 Err(_) => { assert!(false, "iteration failed on flushed records"); }
             }
             std::mem::forget(res);
+            // the iterator's own position must follow the records it returned; past a wrong advance nothing is explored
+            // (the next read would start inside a record, at bytes that are symbolic)
+            assert!(it.verif_offset() == expect, "iterator advanced to an offset that is not the next record boundary");
+            kani::assume(it.verif_offset() == expect);
             if done { break; }
             k += 1;
         }
         assert!(expect == o3, "iteration did not stop exactly at the flushed offset");
         assert!(count == if from_second { 1 } else { 2 }, "iteration did not yield exactly the flushed records");
+        std::mem::forget(w);
+        std::mem::forget(r);
+    }
+
+    /// lighter iteration: one flushed record, one unsynced record behind it
+    pub fn iterate_light<const H: usize>(n1: usize, n2: usize, start: u64, from_second: bool) {
+        let mut w = Writer::<H>::create("seg", SEG, start).unwrap();
+        let fl = w.flushed_offset();
+        let mut r = Reader::<H>::open("seg", Some(fl.clone())).unwrap();
+        let d1 = any_bytes();
+        let hdr: [u8; H] = kani::any();
+        let (o1, l1) = w.append(&hdr, &d1[..n1]).unwrap();
+        w.sync().unwrap();
+        let (o2, l2) = w.append(&hdr, &d1[..n2]).unwrap(); // not synced
+        w.flush_writer().unwrap();
+        let begin = if from_second { o2 } else { o1 };
+        let mut it = r.iter(begin);
+        let mut count = 0u32;
+        let mut expect = begin;
+        let mut k = 0;
+        while k < 2 {
+            let res = it.next_record();
+            let mut done = false;
+            match &res {
+                Ok(Some(rec)) => {
+                    assert!(rec.offset == expect, "iteration skipped or repeated a record");
+                    assert!(record_matches_disk(rec, rec.offset), "iteration returned bytes that are not on disk");
+                    expect += rec.len as u64;
+                    count += 1;
+                }
+                Ok(None) => done = true,
+                Err(_) => { assert!(false, "iteration failed on flushed records"); }
+            }
+            std::mem::forget(res);
+            // the iterator's own position must follow the records it returned; past a wrong advance nothing is explored
+            // (the next read would start inside a record, at bytes that are symbolic)
+            assert!(it.verif_offset() == expect, "iterator advanced to an offset that is not the next record boundary");
+            kani::assume(it.verif_offset() == expect);
+            if done { break; }
+            k += 1;
+        }
+        assert!(expect == o2, "iteration did not stop exactly at the flushed offset");
+        assert!(count == if from_second { 0 } else { 1 }, "iteration did not yield exactly the flushed records");
         std::mem::forget(w);
         std::mem::forget(r);
     }
